@@ -104,19 +104,23 @@ def gen_world_r(files, repo, ctx, log):
             log.append(("GEN", path, ln, "World-R axioms for const %s = %s" % (name, v)))
     lits = sorted(ctx.get("float_lits", set()))
     seen = {}
-    for k, text in enumerate(lits):
-        v = lit_value(text)
-        if v is None: continue
-        sl = spec_lit(text)
-        if sl in seen: continue
-        seen[sl] = v
-        out.append("pub broadcast axiom fn lit_v_%d() ensures R(#[trigger] id_f64(%s)) == %s;" % (k, sl, real(v)))
-        out.append("pub broadcast axiom fn lit_l_%d(b: f64) ensures R(#[trigger] %s.mul_spec(b)) == %s * R(b);" % (k, sl, real(v)))
-        out.append("pub broadcast axiom fn lit_r_%d(b: f64) ensures R(#[trigger] b.mul_spec(%s)) == R(b) * %s;" % (k, sl, real(v)))
-        names += ["lit_l_%d" % k, "lit_r_%d" % k]
-        if v != 0:
-            out.append("pub broadcast axiom fn lit_d_%d(a: f64) ensures R(#[trigger] a.div_spec(%s)) == R(a) / %s;" % (k, sl, real(v)))
-            names.append("lit_d_%d" % k)
+    k = 0
+    for text in lits:
+        v0 = lit_value(text)
+        if v0 is None: continue
+        for neg in (False, True):
+            if neg and v0 == 0: continue
+            v = -v0 if neg else v0
+            sl = ("(-" + spec_lit(text) + ")") if neg else spec_lit(text)
+            if sl in seen: continue
+            seen[sl] = v
+            k += 1
+            out.append("pub broadcast axiom fn lit_l_%d(b: f64) ensures R(#[trigger] %s.mul_spec(b)) == %s * R(b);" % (k, sl, real(v)))
+            out.append("pub broadcast axiom fn lit_r_%d(b: f64) ensures R(#[trigger] b.mul_spec(%s)) == R(b) * %s;" % (k, sl, real(v)))
+            names += ["lit_l_%d" % k, "lit_r_%d" % k]
+            if v != 0:
+                out.append("pub broadcast axiom fn lit_d_%d(a: f64) ensures R(#[trigger] a.div_spec(%s)) == R(a) / %s;" % (k, sl, real(v)))
+                names.append("lit_d_%d" % k)
     # value axioms of literals cannot be triggered on a constant: one ground axiom
     vals = ", ".join("R(%s) == %s" % (sl, real(v)) for sl, v in sorted(seen.items())) or "true"
     out.append("#[verifier::allow(broadcast_without_trigger)]")
